@@ -22,8 +22,10 @@ Oracle (independent reading of the property over what the implementation did; ow
   outer-visible fields yields the same outer bytes in front of the ciphertext; every
   manipulation that changes a value (ciphertext, Partial IV, KID, KID context, key, request
   identifiers) raises a ProtectionInvalid (sub)class — never another exception, never a message;
-  a manipulation that only changes representation may be accepted but then yields the
-  original message; on one context, after any rejected copies the genuine request still yields
+  a manipulation that only changes representation (stated: the KID context of a request removed;
+  the recipient's own KID / KID context added to or removed from a response - RFC 8613 leaves
+  these to the sender, none is in the AAD; NOT the KID of a request, which SHALL be present) may be
+  accepted but then yields the original message; on one context, after any rejected copies the genuine request still yields
   the original; over a whole exchange INCLUDING the server's life before a crash (request answered,
   state lost, the same request replayed, Echo challenge, Echo completion, response) no (key, nonce)
   pair is handed to the AEAD for two encryptions (the transparent AEAD records them) - with a
@@ -54,9 +56,16 @@ RULE = ("Scenarios = (algorithm/nonce length, client and server sender-ID length
         "whole history. Round 4: every single-bit change of the outer code byte and bytes appended to the "
         "OSCORE option for every request and response (the oracle's option reader is the strict RFC 8613 "
         "6.1 / 5 grammar: what it calls malformed must be refused); Proxy-Uri requests of every shape "
-        "(5 authorities x 6 paths x 6 queries, schemes rotating; judged whenever protect() succeeds: no "
+        "(5 authorities x 6 paths x 6 queries, schemes rotating; judged ONLY when protect() succeeds: no "
         "Uri-Path / Uri-Query / path or query marker / Proxy-Uri beyond scheme and authority outside, path "
-        "and query back as Uri-Path / Uri-Query); the lives of a process on the real "
+        "and query back as Uri-Path / Uri-Query. The current code refuses every Proxy-Uri request in protect() "
+        "(IncompleteUrlError - an availability defect outside the clauses), so on it this family judges NOTHING: "
+        "the distribution counts proxy-uri:protect-refused against proxy-uri:judged, and the family only guards "
+        "against a FUTURE repair of the refusal that leaks path or query); audit F: a request whose KID was "
+        "removed from the option (with and without its KID context) is a must-fail case for every request "
+        "scenario, also as a rejected copy in front of the genuine request on one context; what stays "
+        "'representation' is stated: KID context of a request removed, the recipient's own KID / KID context "
+        "added to or removed from a response; the lives of a process on the real "
         "FilesystemSecurityContext: killed or stopped after EVERY count k = 0..75 of protects of the first "
         "life, after k2 of the second, protecting again; orderly stops mixed in; other chunk "
         "configurations; start values around the Partial-IV length boundaries and the last number; random "
@@ -548,6 +557,10 @@ def must_fail_option(kind, orig_opt, new_opt, expect_kid, expect_ctx, rid_kid, r
     if p1["ctx"] is not None and p1["ctx"] != expect_ctx:
         return "ID context value changed"
     if kind == "req":
+        if p1["kid"] is None:
+            # RFC 8613 section 5: "[kid] SHALL be present in requests" - a request without one is not another
+            # rendition of the message that was sent (audit F; formerly judged representation-only)
+            return "KID removed from request"
         if p1["piv"] is None:
             return "Partial IV removed from request"
         if p1["piv"] != p0["piv"]:
@@ -652,6 +665,8 @@ def option_rewrites(orig, kind, expect_kid, expect_ctx, rng):
         if kid:
             out.append(("kid-shorter", b(kid=kid[:-1])))
         out.append(("kid-removed", b(kid=None)))
+        if ctx is not None:
+            out.append(("kid-and-ctx-removed", b(kid=None, ctx=None)))
         out.append(("kid-flag-cleared-bytes-kept", bytes([orig[0] & ~0x08]) + orig[1:]))
     else:
         out.append(("kid-added-correct", b(kid=expect_kid)))
@@ -841,6 +856,7 @@ def run_scenario(k, scn, sink, rng, manip=True, only_manip=None):
              nontrivial=has_inner, tag="step:protect-request")
     verdicts.append(v)
     if outer is None:
+        art["protect_refused"] = out
         return verdicts, art
     art["rid_c"] = copy_rid(k, rid_c)
     art["req_wire"] = wire
@@ -937,6 +953,9 @@ def forged_copies(k, scn, wire, rng):
     nv = v + 1 if v + 1 <= MAXSEQ else v - 1
     out.append(("piv-value", rewire(k, wire, oscore_value=rfc_build_option(
         piv=minbe(nv) or b"\0", kid=p["kid"], ctx=p["ctx"]))))
+    # the genuine ciphertext behind an option without the KID (RFC 8613 section 5: SHALL be present): if that were
+    # taken, it would consume the genuine request's number
+    out.append(("kid-removed", rewire(k, wire, oscore_value=rfc_build_option(piv=p["piv"], kid=None, ctx=p["ctx"]))))
     return out
 
 
@@ -1638,6 +1657,14 @@ def run(env, rep):
         rep.count("idctx=" + ("none" if scn["idctx"] is None else str(len(unhx(scn["idctx"])))))
         rep.count("pivlen-c=%d" % max(1, (scn["cseq"].bit_length() + 7) // 8))
         _, art = run_scenario(k, scn, sink, rng)
+        if "proxy_uri_shape" in scn:
+            # said as it is: a Proxy-Uri scenario that protect() refuses judges NOTHING (availability is outside the
+            # clauses); only the ones counted as judged are a check of the hiding / round-trip clauses
+            if "req_wire" in art:
+                rep.count("proxy-uri:judged")
+            else:
+                rep.count("proxy-uri:protect-refused")
+                rep.count("proxy-uri:protect-refused:" + art.get("protect_refused", "err:?")[4:])
         if art.get("req_u_out", "").startswith("ok"):
             play_session(k, scn, make_session(k, scn, art, rng), sink)
             play_crash(k, scn, {"echo1": hx(bytes(rng.randrange(256) for _ in range(8))),
@@ -1646,6 +1673,12 @@ def run(env, rep):
         if len(sink.lines) >= 20000:
             compare(env, rep, sink.cases, sink.lines, sink.impl, what="protect/unprotect")
             sink.cases, sink.lines, sink.impl = [], [], []
+    pu_refused, pu_judged = rep.hist.get("proxy-uri:protect-refused", 0), rep.hist.get("proxy-uri:judged", 0)
+    if pu_refused:
+        names = sorted(t.rsplit(":", 1)[1] for t in rep.hist if t.startswith("proxy-uri:protect-refused:"))
+        rep.notes.append(f"Proxy-Uri family: protect() refused {pu_refused} of {pu_refused + pu_judged} Proxy-Uri requests "
+                         f"({', '.join(names)}); {pu_judged} were judged. On code that refuses them all the family checks "
+                         f"nothing now - it only guards against a future repair of the refusal that leaks path or query")
     peer_last_number(k, gen, sink)
     compare(env, rep, sink.cases, sink.lines, sink.impl, what="protect/unprotect")
     sink.cases, sink.lines, sink.impl = [], [], []
